@@ -654,18 +654,19 @@ CO_ERR COSdoEndDownloadBlock(CO_SDO *srv)
         }
         len    = ((uint32_t)srv->Buf.Num - n);
         result = COObjWrBufCont(srv->Obj, srv->Node, srv->Buf.Start, len);
+        srv->Blk.State = BLK_IDLE;
+        srv->Buf.Cur   = srv->Buf.Start;
+        srv->Buf.Num   = 0;
         if (result != CO_ERR_NONE) {
             srv->Node->Error = CO_ERR_SDO_WRITE;
             COSdoAbort(srv, CO_SDO_ERR_TOS);
+            return (CO_ERR_SDO_ABORT);
         }
         CO_SET_BYTE(srv->Frm, 0xA1, 0);
         CO_SET_WORD(srv->Frm, 0, 1);
         CO_SET_BYTE(srv->Frm, 0, 3);
         CO_SET_LONG(srv->Frm, 0, 4);
 
-        srv->Blk.State = BLK_IDLE;
-        srv->Buf.Cur   = srv->Buf.Start;
-        srv->Buf.Num   = 0;
         srv->Obj       = 0;
         result         = CO_ERR_NONE;
     }
@@ -720,11 +721,14 @@ CO_ERR COSdoDownloadBlock(CO_SDO *srv)
             if ((cmd & 0x80) == 0) {
                 len = (uint32_t)srv->Buf.Num;
                 err = COObjWrBufCont(srv->Obj, srv->Node, srv->Buf.Start, len);
-                if (err != CO_ERR_NONE) {
-                    srv->Node->Error = CO_ERR_SDO_WRITE;
-                }
                 srv->Buf.Cur = srv->Buf.Start;
                 srv->Buf.Num = 0;
+                if (err != CO_ERR_NONE) {
+                    srv->Node->Error = CO_ERR_SDO_WRITE;
+                    srv->Blk.State   = BLK_IDLE;
+                    COSdoAbort(srv, CO_SDO_ERR_TOS);
+                    result = CO_ERR_SDO_ABORT;
+                }
             }
         }
     } else {
@@ -744,11 +748,15 @@ CO_ERR COSdoDownloadBlock(CO_SDO *srv)
             if (srv->Buf.Num > 0) {
                 len = (uint32_t)srv->Buf.Num;
                 err = COObjWrBufCont(srv->Obj, srv->Node, srv->Buf.Start, len);
-                if (err != CO_ERR_NONE) {
-                    srv->Node->Error = CO_ERR_SDO_WRITE;
-                }
                 srv->Buf.Cur = srv->Buf.Start;
                 srv->Buf.Num = 0;
+                if (err != CO_ERR_NONE) {
+                    srv->Node->Error = CO_ERR_SDO_WRITE;
+                    srv->Blk.State   = BLK_IDLE;
+                    srv->Blk.SegCnt  = 0;
+                    COSdoAbort(srv, CO_SDO_ERR_TOS);
+                    return (CO_ERR_SDO_ABORT);
+                }
             }
             srv->Blk.SegCnt = 0;
             result          = CO_ERR_NONE;
